@@ -57,6 +57,9 @@ impl<'de, R: Reader<'de>> Parser<R> {
     pub open spec fn same_doc(&self, o: &Self) -> bool {
         self.read.data() == o.read.data() && self.error_index == o.error_index && self.cfg == o.cfg
     }
+    /// no invalid UTF-8 lies in the consumed part of the input (deferred validation: the reader knows the offset of the
+    /// first invalid byte found by the up-front validation, T4)
+    pub open spec fn utf8_clean(&self) -> bool { self.read.next_invalid() >= self.read.idx() }
     /// the cache is untouched
     pub open spec fn same_cache(&self, o: &Self) -> bool {
         self.nospace_bits == o.nospace_bits && self.nospace_start == o.nospace_start
